@@ -29,6 +29,15 @@
      [op |-> "retain"] / [op |-> "release"]   dispatch_retain / dispatch_release of a reference the client holds
      [op |-> "setctx", v |-> n]               dispatch_set_context
      [op |-> "relchild"]                      release of the last reference of a child queue whose target is the lane
+     [op |-> "retarget", i |-> b]             dispatch_set_target_queue(lane, TQ) on the ACTIVE lane (legacy retarget):
+                                              _dispatch_lane_set_target_queue retains TQ (the +1 a lane owes its target), then
+                                              _dispatch_barrier_trysync_or_async_f(dq, tq, _dispatch_lane_legacy_set_target_queue,
+                                              DISPATCH_BARRIER_TRYSYNC_SUSPEND): either the barrier runs inline under the drain lock
+                                              with one suspend count, or it is pushed as the detached barrier item b; the callback
+                                              stores do_targetq and releases the old target (a global root queue here)
+     [op |-> "reltq"]                         the application releases its (only) reference on TQ
+   TQ is a second, abstract dispatch queue (counter trc, ghost tdisposed): between the retarget call and the callback it is the
+   lane's PENDING target and must already be owned by the lane.
    Every client starts with ONE external reference.  Item bodies may suspend the lane (Body[i] = "suspend") or
    release the submitter's reference (Body[i] = "release": the block owns the reference, the case of rdar://6932776).
    The lane has a finalizer; it has a context when ctx # 0; it has one queue-specific key with a destructor.
@@ -78,10 +87,17 @@ VARIABLES st,              \* dq_state (DQState record)
           finRuns,          \* ghost: contexts the finalizer was invoked with, in order
           specRuns,         \* ghost: invocations of the queue-specific destructor
           hand, parked,     \* ghost: reference ledger (RefsWord.tla)
-          uaf               \* ghost: "" or the pc of the first step that touched the lane after its memory was released
+          uaf,              \* ghost: "" or the pc of the first step that touched the lane after its memory was released
+          trc,              \* os_obj_ref_cnt of TQ (C value): the application's reference + the lane's once it is (to be) its target
+          tdisposed,        \* ghost: TQ's memory has been released
+          tgtq,             \* the lane's do_targetq is TQ (callback of the legacy retarget ran)
+          rtPending,        \* ghost: dispatch_set_target_queue(lane, TQ) was called and its callback has not run yet
+          tgtReleased,      \* ghost: the lane's _dispatch_dispose released its target
+          tuaf              \* ghost: "" or the pc of the first step that touched TQ after its memory was released
 RF == <<xref, held, ctx, childAlive, disposed, finRuns, specRuns>>
+TQV == <<trc, tdisposed, tgtq, rtPending, tgtReleased, tuaf>>
 vars == <<st, sideCnt, sideLock, head, tail, nxt, root, pc, lv, ip, ev, running, runCount, done, rc, pred,
-          susp, ownSusp, lateStarts, activated, bad, RF, hand, parked, uaf>>
+          susp, ownSusp, lateStarts, activated, bad, RF, hand, parked, uaf, TQV>>
 
 IsBarrier(i) == Kind[i] \in {"ba", "bs"} \/ W = 1      \* everything is a barrier on a serial lane
 IsWaiter(i) == Kind[i] \in {"rs", "bs"}
@@ -99,6 +115,7 @@ Init == /\ st = IF InitInactive THEN InactiveInit ELSE Idle0
         /\ xref = Cardinality(Clients) - 1 /\ held = [c \in Clients |-> 1]
         /\ ctx = Ctx0 /\ childAlive = HasChild /\ disposed = FALSE /\ finRuns = <<>> /\ specRuns = 0
         /\ hand = [t \in Threads |-> 0] /\ parked = 0 /\ uaf = ""
+        /\ trc = 0 /\ tdisposed = FALSE /\ tgtq = FALSE /\ rtPending = FALSE /\ tgtReleased = FALSE /\ tuaf = ""
         /\ pred = [i \in Items |-> {}]
         /\ susp = 0 /\ ownSusp = 0 /\ lateStarts = 0 /\ activated = ~InitInactive /\ bad = ""
 
@@ -537,7 +554,47 @@ StartRef(c) ==
          [] o.op = "release"  -> Go(c, "xrel") /\ lv' = [lv EXCEPT ![c] = [L0 EXCEPT !.xret = "ret", !.xc = c]]
          [] o.op = "setctx"   -> Go(c, "setctx") /\ lv' = [lv EXCEPT ![c] = [L0 EXCEPT !.cctx = o.v]]
          [] o.op = "relchild" -> Go(c, "ch_free") /\ lv' = [lv EXCEPT ![c] = L0]
+         [] o.op = "retarget" -> Go(c, "rt_retain") /\ lv' = [lv EXCEPT ![c] = [L0 EXCEPT !.item = o.i, !.ret = "ret"]]
+         [] o.op = "reltq"    -> Go(c, "tq_rel") /\ lv' = [lv EXCEPT ![c] = L0]
     /\ UNCHANGED <<OLD, rc, RF>>
+(* ---- dispatch_set_target_queue on the active lane: _dispatch_lane_set_target_queue (legacy retarget) ---- *)
+\* _dispatch_retain(tq) (effect on TQ in TqStep), then _dispatch_barrier_trysync_or_async_f
+RtRetain(c) == /\ pc[c] = "rt_retain" /\ Go(c, "rt_try") /\ UNCHANGED <<OLD, rc, lv, RF>>
+\* _dispatch_queue_try_acquire_barrier_sync_and_suspend(dq, tid, 1); success: _dispatch_retain_2(dq) (see _dispatch_lane_suspend);
+\* failure: _dispatch_barrier_async_detached_f(dq, tq, func) = an ordinary push of the barrier item
+RtTry(c) == /\ pc[c] = "rt_try"
+            /\ LET r == TryAcquireBarrierSync(st, Self(c), 1) IN
+               IF r.ok THEN st' = r.s /\ rc' = rc + 2 /\ Go(c, "rt_cb") ELSE st' = st /\ rc' = rc /\ Go(c, "push_tail")
+            /\ UNCHANGED <<SIDE, Q, root, lv, ip, ev, RUN, pred, GH, RF>>
+\* _dispatch_barrier_trysync_or_async_f_complete: the callback runs inline (effect on TQ in TqStep)
+RtCb(c) == /\ pc[c] = "rt_cb" /\ Go(c, "rt_unsusp")
+           /\ runCount' = [runCount EXCEPT ![lv[c].item] = @ + 1] /\ done' = done \cup {lv[c].item} /\ running' = running
+           /\ UNCHANGED <<st, SIDE, Q, root, lv, ip, ev, pred, GH, rc, RF>>
+\* dq_state -= SUSPEND_INTERVAL; not suspended any more: CONSUME_2; dx_wakeup(dq, 0, BARRIER_COMPLETE [| CONSUME_2])
+RtUnsusp(c) == /\ pc[c] = "rt_unsusp"
+               /\ st' = [st EXCEPT !.sc = @ - 1]
+               /\ lv' = [lv EXCEPT ![c].fl2 = ~Suspended([st EXCEPT !.sc = @ - 1]), ![c].qos = 0, ![c].ret = "ret"]
+               /\ Go(c, "bc_tail")
+               /\ UNCHANGED <<SIDE, Q, root, ip, ev, RUN, pred, GH, rc, RF>>
+\* dispatch_release(TQ) by the application (effect on TQ in TqStep)
+TqRel(c) == /\ pc[c] = "tq_rel" /\ Go(c, "ret") /\ UNCHANGED <<OLD, rc, lv, RF>>
+\* what a step does to TQ: retain before the hand-off (or, spec mutant, only in the callback), the callback
+\* _dispatch_lane_legacy_set_target_queue (inline or as the barrier item), the application's release, and the release of
+\* the lane's target at the end of the lane's _dispatch_dispose
+TqTouch(t) == tuaf' = IF tuaf = "" /\ tdisposed THEN pc[t] ELSE tuaf
+TqCallback(t) == /\ tgtq' = TRUE /\ rtPending' = FALSE /\ tgtReleased' = tgtReleased /\ tdisposed' = tdisposed
+                 /\ trc' = IF Mut = "retarget_retains_late" THEN trc + 1 ELSE trc
+                 /\ TqTouch(t)            \* priority / wlh inheritance reads the new target
+TqDrop(t) == /\ trc' = trc - 1 /\ tdisposed' = (tdisposed \/ trc - 1 = -1) /\ TqTouch(t)
+TqStep(t) ==
+    CASE pc[t] = "rt_retain" -> /\ trc' = IF Mut = "retarget_retains_late" THEN trc ELSE trc + 1
+                                /\ rtPending' = TRUE /\ (IF Mut = "retarget_retains_late" THEN tuaf' = tuaf ELSE TqTouch(t))
+                                /\ UNCHANGED <<tdisposed, tgtq, tgtReleased>>
+      [] pc[t] = "rt_cb" -> TqCallback(t)
+      [] pc[t] = "call" /\ Body[lv[t].dc] = "retarget" -> TqCallback(t)
+      [] pc[t] = "tq_rel" -> TqDrop(t) /\ UNCHANGED <<tgtq, rtPending, tgtReleased>>
+      [] pc[t] = "disp_free" /\ tgtq -> TqDrop(t) /\ tgtReleased' = TRUE /\ UNCHANGED <<tgtq, rtPending>>
+      [] OTHER -> UNCHANGED TQV
 \* dispatch_set_context: plain store to do_ctxt
 SetCtx(c) == /\ pc[c] = "setctx" /\ ctx' = lv[c].cctx /\ Go(c, "ret")
              /\ UNCHANGED <<OLD, rc, lv, xref, held, childAlive, disposed, finRuns, specRuns>>
@@ -595,7 +652,7 @@ FinCall(w) == /\ pc[w] = "fin_call" /\ finRuns' = Append(finRuns, lv[w].cctx) /\
               /\ UNCHANGED <<OLD, rc, lv, xref, held, ctx, childAlive, disposed, specRuns>>
 SpecCall(w) == /\ pc[w] = "spec_call" /\ specRuns' = specRuns + 1 /\ Go(w, "idle")
                /\ UNCHANGED <<OLD, rc, lv, xref, held, ctx, childAlive, disposed, finRuns>>
-RefStep(t) == \/ (t \in Clients /\ (StartRef(t) \/ SetCtx(t) \/ ChFree(t) \/ ChRelTq(t)))
+RefStep(t) == \/ (t \in Clients /\ (StartRef(t) \/ SetCtx(t) \/ ChFree(t) \/ ChRelTq(t) \/ RtRetain(t) \/ RtTry(t) \/ RtCb(t) \/ RtUnsusp(t) \/ TqRel(t)))
               \/ (t \in Workers /\ (FinCall(t) \/ SpecCall(t)))
               \/ XRet(t) \/ XRel(t) \/ XdState(t) \/ XdRel(t) \/ DispRead(t) \/ DispState(t) \/ DispTail(t) \/ DispSpec(t) \/ DispFree(t)
 
@@ -620,7 +677,7 @@ SharedStep(t) ==
 LaneStep(t) == (t \in Clients /\ ClientStep(t)) \/ (t \in Workers /\ WorkerStep(t)) \/ SharedStep(t)
 \* control points whose next step does not touch the lane's memory
 SafePcs == {"idle", "ret", "call_end", "rd_call_end", "sync_call_end", "fin_call", "spec_call", "crash", "client_crash",
-            "ch_free", "wait_event"}
+            "ch_free", "wait_event", "rt_retain", "tq_rel"}
 Touches(t) == /\ pc[t] \notin SafePcs
               /\ ~(pc[t] \in {"call", "rd_call"} /\ Body[lv[t].dc] = "none")
               /\ ~(pc[t] = "sync_call" /\ Body[lv[t].item] = "none")
@@ -632,6 +689,7 @@ Redirected(rt) == Cardinality({k \in 1..Len(rt) : rt[k] \in Items})
 Roles(x, ch, s) == XRole(x) + (IF ch THEN 1 ELSE 0) + RoleRefs(s)
 Step(t) ==
     /\ (LaneStep(t) /\ UNCHANGED RF) \/ RefStep(t)
+    /\ TqStep(t)
     /\ uaf' = IF uaf = "" /\ disposed /\ Touches(t) THEN pc[t] ELSE uaf
     \* the ledger: what t retained / released, took over from or handed to a role bit, the external count, a targeter
     \* a redirected item handed to the root queue carries the +2 of _dispatch_async_redirect_wrap with it
@@ -716,6 +774,11 @@ FinalizerOK == /\ Len(finRuns) <= 1 /\ specRuns <= 1
 NoLeak == (Quiescent /\ AllSubmitted /\ AllReleased) =>
              (disposed /\ done = Items /\ specRuns = 1 /\ finRuns = (IF ctx = 0 THEN <<>> ELSE <<ctx>>)
               /\ parked = 0 /\ \A t \in Threads : hand[t] = 0)
+\* another object (the lane) targets TQ, or is about to: TQ is not deallocated meanwhile, and nothing touches it afterwards
+TqNeeded == ~disposed /\ (rtPending \/ (tgtq /\ ~tgtReleased))
+NoDisposeWhileTargeted == ~(tdisposed /\ (TqNeeded \/ (tgtq /\ ~tgtReleased))) /\ tuaf = "" /\ trc >= -1
+\* ... and it is released once nothing needs it (no leak of the target)
+TqNoLeak == (Quiescent /\ AllSubmitted /\ disposed /\ \E c \in Clients : \E k \in 1..Len(Prog[c]) : Prog[c][k].op = "reltq") => tdisposed
 \* legal client programs never reach the documented misuse crashes
 NoClientCrash == \A t \in Threads : pc[t] # "client_crash"
 \* liveness: after the last release and the end of the pending work the object is eventually disposed and finalised
